@@ -558,29 +558,185 @@ Section ComplexInt.
   Theorem cplx_mul_exact re im : bin_cplx OMul a b c d = Ok (Cplx re im) ->
     rc_int re = Some (va * vc - vb * vd) /\ rc_int im = Some (vb * vc + va * vd).
   Proof.
-    intros H. unfold bin_cplx in H.
+    intros H. unfold bin_cplx, sum_of_products in H.
     step_part H. step_part H. step_part H. step_part H. step_part H. step_part H.
     inversion H; subst.
     destruct (int_arith_exact OMul a c va vc _ Ia Ic Wa Wc E _ eq_refl) as [V1 W1].
     destruct (int_arith_exact OMul b d vb vd _ Ib Id Wb Wd E0 _ eq_refl) as [V2 W2].
-    destruct (int_arith_exact OMul b c vb vc _ Ib Ic Wb Wc E1 _ eq_refl) as [V3 W3].
-    destruct (int_arith_exact OMul a d va vd _ Ia Id Wa Wd E2 _ eq_refl) as [V4 W4].
+    destruct (int_arith_exact OMul b c vb vc _ Ib Ic Wb Wc E2 _ eq_refl) as [V3 W3].
+    destruct (int_arith_exact OMul a d va vd _ Ia Id Wa Wd E3 _ eq_refl) as [V4 W4].
     split.
-    - exact (proj1 (int_arith_exact OSub _ _ _ _ re V1 V2 W1 W2 E3 _ eq_refl)).
+    - exact (proj1 (int_arith_exact OSub _ _ _ _ re V1 V2 W1 W2 E1 _ eq_refl)).
     - exact (proj1 (int_arith_exact OAdd _ _ _ _ im V3 V4 W3 W4 E4 _ eq_refl)).
   Qed.
 End ComplexInt.
 
-(* the complex operations are not total below 512 bits: the products of the
-   parts may exceed 512 bits although the operands do not (the code ignores
-   the error and later dereferences a nil big.Int) *)
-Theorem cplx_mul_fault_witness :
-  exists x, Z.abs x < 2 ^ 512 /\ bin_cplx OMul (Big x) (I64 0) (Big x) (I64 0) = Fault.
-Proof. exists (2 ^ 511). split; [vm_compute; reflexivity|vm_compute; reflexivity]. Qed.
+(* ------------------------------------------------------------------ the complex operations never fault
+   (fix: complexConst.binaryOp returns the errors of the operations on the
+   parts): for constants of any representation class every operation yields a
+   constant or an error.  Before the repair (2^511+0i)*(2^511+0i) faulted. *)
 
-Theorem cplx_div_fault_witness :
-  exists x, Z.abs x < 2 ^ 257 /\ bin_cplx ODiv (I64 0) (I64 1000) (Big x) (I64 0) = Fault.
-Proof. exists (2 ^ 256 + 1). split; vm_compute; reflexivity. Qed.
+Lemma to_same_ordered_rank c1 c2 : class_rank c1 < class_rank c2 ->
+  class_rank (fst (to_same_ordered c1 c2)) = class_rank (snd (to_same_ordered c1 c2)).
+Proof.
+  destruct c1, c2; cbn [class_rank]; intros H; try lia; cbn [to_same_ordered fst snd class_rank]; try reflexivity.
+  destruct (rat_of_fl f); reflexivity.
+Qed.
+
+Lemma to_same_rank c1 c2 : class_rank c1 <> class_rank c2 ->
+  class_rank (fst (to_same c1 c2)) = class_rank (snd (to_same c1 c2)).
+Proof.
+  intros H. unfold to_same. destruct (class_rank c1 <=? class_rank c2) eqn:E.
+  - apply Z.leb_le in E. apply to_same_ordered_rank. lia.
+  - apply Z.leb_gt in E. pose proof (to_same_ordered_rank c2 c1 E) as R.
+    destruct (to_same_ordered c2 c1) as [d2 d1]. cbn [fst snd] in *. symmetry. exact R.
+Qed.
+
+Definition res_num (r : res cst) : Prop := (exists x, r = Ok (Num x)) \/ (exists e, r = Err e).
+Definition res_bool (r : res cst) : Prop := exists b, r = Ok (Bool b).
+
+Lemma res_num_if (t : bool) a b : res_num a -> res_num b -> res_num (if t then a else b).
+Proof. destruct t; auto. Qed.
+Lemma res_num_ok x : res_num (Ok (Num x)).
+Proof. left. eexists. reflexivity. Qed.
+Lemma res_num_err e : res_num (Err e).
+Proof. right. eexists. reflexivity. Qed.
+
+Lemma bin_big_num o a b : is_field_op o = true -> res_num (bin_big o a b).
+Proof.
+  destruct o; try discriminate; intros _; cbn [bin_big];
+    apply res_num_if; auto using res_num_ok, res_num_err.
+Qed.
+
+Lemma bin_i64_num o a b : is_field_op o = true -> res_num (bin_i64 o a b).
+Proof.
+  intros F. pose proof (bin_big_num o a b F) as B.
+  destruct o; try discriminate; cbn [bin_i64]; cbn [bin_big] in B.
+  - apply res_num_if; auto using res_num_ok.
+  - apply res_num_if; auto using res_num_ok.
+  - apply res_num_if; [apply res_num_ok|]. apply res_num_if; auto using res_num_ok.
+  - apply res_num_if; [apply res_num_err|]. apply res_num_if; auto using res_num_ok.
+Qed.
+
+Lemma bin_bigf_num o x y : is_field_op o = true -> res_num (bin_bigf o x y).
+Proof.
+  destruct o; try discriminate; intros _; cbn [bin_bigf]; auto using res_num_ok.
+  apply res_num_if; auto using res_num_ok, res_num_err.
+Qed.
+
+Lemma bin_f64_num o x y : is_field_op o = true -> res_num (bin_f64 o x y).
+Proof.
+  intros F. pose proof (bin_bigf_num o x y F) as B.
+  destruct o; try discriminate; cbn [bin_f64]; repeat apply res_num_if; auto using res_num_ok, res_num_err.
+Qed.
+
+Lemma mk_rat_cst_num n d : res_num (Ok (mk_rat_cst n d)).
+Proof. unfold mk_rat_cst. destruct (mkrat n d). apply res_num_ok. Qed.
+
+Lemma bin_rat_num o n1 d1 n2 d2 : is_field_op o = true -> res_num (bin_rat o n1 d1 n2 d2).
+Proof.
+  destruct o; try discriminate; intros _; cbn [bin_rat]; repeat apply res_num_if;
+    auto using mk_rat_cst_num, res_num_err.
+Qed.
+
+Lemma bin_same_num o c1 c2 : is_field_op o = true -> class_rank c1 = class_rank c2 ->
+  res_num (bin_same o c1 c2).
+Proof.
+  intros F R. destruct c1, c2; cbn [class_rank] in R; try discriminate; cbn [bin_same];
+    auto using bin_i64_num, bin_big_num, bin_f64_num, bin_bigf_num, bin_rat_num.
+Qed.
+
+Lemma bin_arith_num o x y : is_field_op o = true -> res_num (bin_arith o x y).
+Proof.
+  intros F. unfold bin_arith. destruct (class_rank x =? class_rank y) eqn:E.
+  - apply Z.eqb_eq in E. apply bin_same_num; assumption.
+  - apply Z.eqb_neq in E. pose proof (to_same_rank x y E) as R.
+    destruct (to_same x y) as [d1 d2]. apply bin_same_num; assumption.
+Qed.
+
+Lemma bin_same_eq_bool c1 c2 : class_rank c1 = class_rank c2 -> res_bool (bin_same OEq c1 c2).
+Proof.
+  intros R. destruct c1, c2; cbn [class_rank] in R; try discriminate; cbn; eexists; reflexivity.
+Qed.
+
+Lemma bin_arith_eq_bool x y : res_bool (bin_arith OEq x y).
+Proof.
+  unfold bin_arith. destruct (class_rank x =? class_rank y) eqn:E.
+  - apply Z.eqb_eq in E. apply bin_same_eq_bool; assumption.
+  - apply Z.eqb_neq in E. pose proof (to_same_rank x y E) as R.
+    destruct (to_same x y) as [d1 d2]. apply bin_same_eq_bool; assumption.
+Qed.
+
+(* a part operation yields a number constant or the error of the operation *)
+Lemma part_cases o x y : is_field_op o = true ->
+  (exists r, part o x y = Ok r /\ bin_arith o x y = Ok (Num r)) \/
+  (exists e, part o x y = Err e /\ bin_arith o x y = Err e).
+Proof.
+  intros F. unfold part. destruct (bin_arith_num o x y F) as [[r H]|[e H]]; rewrite H; cbn.
+  - left. exists r. split; reflexivity.
+  - right. exists e. split; reflexivity.
+Qed.
+
+Definition no_fault {A} (r : res A) : Prop := r <> Fault.
+
+Lemma no_fault_bind {A B} (r : res A) (f : A -> res B) :
+  no_fault r -> (forall a, r = Ok a -> no_fault (f a)) -> no_fault (bind r f).
+Proof.
+  unfold no_fault. destruct r; cbn; intros H1 H2; auto; discriminate.
+Qed.
+
+Lemma part_no_fault o x y : is_field_op o = true -> no_fault (part o x y).
+Proof.
+  intros F. destruct (part_cases o x y F) as [[r [H _]]|[e [H _]]]; rewrite H; discriminate.
+Qed.
+
+Lemma sum_of_products_no_fault a b o c d : is_field_op o = true ->
+  no_fault (sum_of_products a b o c d).
+Proof.
+  intros F. unfold sum_of_products.
+  apply no_fault_bind; [apply part_no_fault; reflexivity|intros ab _].
+  apply no_fault_bind; [apply part_no_fault; reflexivity|intros cd _].
+  apply part_no_fault; assumption.
+Qed.
+
+Theorem cplx_no_fault o a b c d : bin_cplx o a b c d <> Fault.
+Proof.
+  change (no_fault (bin_cplx o a b c d)).
+  assert (HB : forall x y, no_fault (get_bool (bin_arith OEq x y))).
+  { intros x y. destruct (bin_arith_eq_bool x y) as [t H]. rewrite H. discriminate. }
+  destruct o; cbn [bin_cplx]; try discriminate.
+  - apply no_fault_bind; [apply HB|intros re _]. apply no_fault_bind; [apply HB|intros im _]. discriminate.
+  - apply no_fault_bind; [apply HB|intros re _]. apply no_fault_bind; [apply HB|intros im _]. discriminate.
+  - apply no_fault_bind; [apply part_no_fault; reflexivity|intros re _].
+    apply no_fault_bind; [apply part_no_fault; reflexivity|intros im _]. discriminate.
+  - apply no_fault_bind; [apply part_no_fault; reflexivity|intros re _].
+    apply no_fault_bind; [apply part_no_fault; reflexivity|intros im _]. discriminate.
+  - apply no_fault_bind; [apply sum_of_products_no_fault; reflexivity|intros re _].
+    apply no_fault_bind; [apply sum_of_products_no_fault; reflexivity|intros im _]. discriminate.
+  - destruct (rc_zero c && rc_zero d); [discriminate|].
+    apply no_fault_bind; [apply sum_of_products_no_fault; reflexivity|intros s _].
+    destruct (rc_zero s); [discriminate|].
+    apply no_fault_bind; [apply sum_of_products_no_fault; reflexivity|intros re _].
+    apply no_fault_bind; [apply sum_of_products_no_fault; reflexivity|intros im _].
+    apply no_fault_bind; [apply part_no_fault; reflexivity|intros qr _].
+    apply no_fault_bind; [apply part_no_fault; reflexivity|intros qi _]. discriminate.
+Qed.
+
+Theorem cplx_no_fault_big o a b c d : is_field_op o = true ->
+  Z.abs a < 2 ^ 512 -> Z.abs b < 2 ^ 512 -> Z.abs c < 2 ^ 512 -> Z.abs d < 2 ^ 512 ->
+  bin_cplx o (Big a) (Big b) (Big c) (Big d) <> Fault.
+Proof. intros _ _ _ _ _. apply cplx_no_fault. Qed.
+
+(* the products of the parts may exceed 512 bits although the operands do
+   not: the operation is then rejected with the overflow error of the part
+   operation (before the repair: a fault) *)
+Theorem cplx_mul_overflow_witness :
+  bin_cplx OMul (Big (2 ^ 511)) (I64 0) (Big (2 ^ 511)) (I64 0) = Err EMulOverflow.
+Proof. vm_compute. reflexivity. Qed.
+
+Theorem cplx_div_overflow_witness :
+  bin_cplx ODiv (I64 0) (I64 1000) (Big (2 ^ 256 + 1)) (I64 0) = Err EMulOverflow.
+Proof. vm_compute. reflexivity. Qed.
 
 (* float arithmetic is not exact beyond 512 bits: 2 + 2^-1074 is 2 *)
 Theorem bigf_add_rounds_witness :
